@@ -104,7 +104,16 @@ pub struct Model<'a> {
     pub fetched: Option<u16>,
     /// assume every pre-state cell read by the model is fully initialised
     pub all_init: bool,
+    /// the step executed a virtual HALT
+    pub halted: bool,
+    /// the default internal-register mappings are present: PSR at xFFFC, MCR at xFFFE
+    pub iregs: bool,
+    /// machine control register (only meaningful with `iregs`)
+    pub mcr: bool,
 }
+
+pub const PSR_ADDR: u16 = 0xFFFC;
+pub const MCR_ADDR: u16 = 0xFFFE;
 
 #[inline(always)]
 pub fn in_user_space(a: u16) -> bool {
@@ -186,12 +195,21 @@ impl<'a> Model<'a> {
             return Err(E_ACV);
         }
         if a >= IO_START {
-            assert!(self.nread < MAX_READS, "model: too many device reads");
-            let ans = self.script.read_ans[self.nread];
-            self.nread += 1;
-            self.push_call(CALL_READ, a, 1);
-            if let Some(d) = ans {
-                self.push_eff(a, Word::new_init(d));
+            if self.iregs && a == PSR_ADDR {
+                // a mapped internal register takes precedence over any device on the port
+                let v = self.psr;
+                self.push_eff(a, Word::new_init(v));
+            } else if self.iregs && a == MCR_ADDR {
+                let v = (self.mcr as u16) << 15;
+                self.push_eff(a, Word::new_init(v));
+            } else {
+                assert!(self.nread < MAX_READS, "model: too many device reads");
+                let ans = self.script.read_ans[self.nread];
+                self.nread += 1;
+                self.push_call(CALL_READ, a, 1);
+                if let Some(d) = ans {
+                    self.push_eff(a, Word::new_init(d));
+                }
             }
         }
         self.push_obs(a, OBS_READ);
@@ -209,11 +227,23 @@ impl<'a> Model<'a> {
             if strict_val && !w.is_init() {
                 return Err(E_STRICT);
             }
-            assert!(self.nwrite < MAX_WRITES, "model: too many device writes");
-            let ans = self.script.write_ans[self.nwrite];
-            self.nwrite += 1;
-            self.push_call(CALL_WRITE, a, w.get());
-            ans
+            if self.iregs && a == PSR_ADDR {
+                // PSR write: only privilege, priority and condition-code bits; CC kept one-hot
+                let d = w.get();
+                let cc = d & 7;
+                let cc = if cc == 1 || cc == 2 || cc == 4 { cc } else { 2 };
+                self.psr = (d & 0x8700) | cc;
+                true
+            } else if self.iregs && a == MCR_ADDR {
+                self.mcr = (w.get() as i16) < 0;
+                true
+            } else {
+                assert!(self.nwrite < MAX_WRITES, "model: too many device writes");
+                let ans = self.script.write_ans[self.nwrite];
+                self.nwrite += 1;
+                self.push_call(CALL_WRITE, a, w.get());
+                ans
+            }
         } else {
             true
         };
@@ -521,6 +551,7 @@ impl<'a> Model<'a> {
         } else {
             r
         };
+        self.halted = matches!(r, Err(E_HALT));
         match r {
             Ok(()) | Err(E_HALT) => R_OK,
             Err(c) => c,
